@@ -2,6 +2,7 @@
 from __future__ import annotations
 
 from kfv.core import Ctx
+from kfv.rules import role_rules as RO
 from kfv.rules import tensor_rules as TR
 from kfv.rules import coh_rules as C
 
@@ -25,3 +26,4 @@ def run(ctx: Ctx) -> None:
     ctx.do(C.rule_dom_phase)
     ctx.do(C.rule_enum_strat)
     ctx.do(C.rule_enum_compute)
+    ctx.do(RO.rule_roles)
